@@ -1089,13 +1089,110 @@ def rule_addblocks(facts):
     return r
 
 
+def _arg_roots(fn, op, at, depth=10):
+    """{(parameter index, opaque)}: parameters the operand's value is computed from. `opaque` = on the way a call received a
+    *reference* derived from the parameter (it may read interior-mutable state behind it: a Mutex, an atomic, a shared
+    collection); plain field reads, copies, operators and calls on copied values are transparent."""
+    from .mir import operand_locals
+    roots, seen = set(), set()
+    st = [(l, False) for l in operand_locals(op, set())]
+    while st:
+        l, opq = st.pop()
+        if (l, opq) in seen:
+            continue
+        seen.add((l, opq))
+        ds = fn.defs.get(l, [])
+        if 1 <= l <= fn.argc:
+            roots.add((l, opq))
+            if not ds:
+                continue
+        for d in ds:
+            if d[0] in ("a", "pa"):
+                st.extend((x, opq) for x in operand_locals(d[3], set()))
+            else:
+                for a in d[2].args:
+                    for x in operand_locals(a, set()):
+                        by_ref = fn.locals[x].lstrip().startswith("&") or fn.locals[x].lstrip().startswith("*")
+                        st.append((x, opq or by_ref))
+    return roots
+
+
+def rule_barrier(facts):
+    """Countdown barriers (`remaining_* : DelayedPartitionCount`): the last partition to arrive flips the phase and wakes the others.
+    A partition that leaves the function with a non-Pending, non-error result *without* arriving (dec_by_one) is never counted and the
+    partitions parked on the barrier wait forever. Leaving without arriving is legitimate only when decided by the partition's own
+    phase (it arrived on an earlier poll: discriminant of its partition state) or by the operator's immutable configuration (the
+    barrier is unused for this plan, identically for every partition: plain field reads of the shared operator state, which cannot change
+    behind a shared reference) - never by something read through a call that was handed a reference into the shared operator state
+    (locks, atomics, shared collections), nor by the batch."""
+    r = RuleResult("C04-BARRIER", "every path that leaves a barrier function successfully without decrementing the countdown is decided by the partition's own "
+                   "phase or by the operator's immutable configuration", floor=10)
+    for rec in facts.all_fns(["glaredb_core"]):
+        if "dec_by_one" not in str(rec["bbs"]) or "::tests::" in rec["id"]:
+            continue
+        fn = Fn(rec)
+        decs = [c for c in fn.calls() if c.name.endswith("DelayedPartitionCount::dec_by_one")]
+        if not decs:
+            continue
+        r.functions.add(fn.id)
+        pend, errs = set(), set()
+        for b, i, pl, rv, ln in fn.assigns():
+            if rv[0] == "agg" and rv[1][0] == "adt" and rv[1][2] == "Pending":
+                pend.add(b)
+        for c in fn.calls():
+            if c.name.endswith("from_residual"):
+                errs.add(c.bb)
+        shared = {l for l in range(1, fn.argc + 1) if "OperatorState" in fn.locals[l]}
+        data = {l for l in range(1, fn.argc + 1) if "arrays::batch::Batch" in fn.locals[l] or "std::task::Context" in fn.locals[l]}
+        for d in decs:
+            o = fn.origin(d.args[0], at=d.bb)
+            fld = ".".join(p[1] for p in (o[2] if len(o) > 2 and isinstance(o[2], list) else []) if isinstance(p, list) and p[0] == "f") or "?"
+            can, st = set(), [d.bb]
+            while st:
+                x = st.pop()
+                if x not in can:
+                    can.add(x)
+                    st.extend(fn.pred[x])
+            before = fn.reachable_from(0, avoid=[d.bb])
+            bad = []
+            nskip = 0
+            for u in sorted(can):
+                if u == d.bb or u not in before:
+                    continue
+                for v in fn.succ[u]:
+                    if v in can:
+                        continue
+                    reach = fn.reachable_from(v, avoid=list(pend | errs | {d.bb}))
+                    if not any(e in reach for e in fn.exits):
+                        continue
+                    nskip += 1
+                    t = fn.term(u)
+                    if t[0] != "switch":
+                        continue
+                    roots = _arg_roots(fn, t[1], u)
+                    for s_ in fn.bbs[u]["s"]:
+                        if s_[0] == "a" and s_[1][0] in {x for x in [t[1][1][0]] if t[1][0] in ("c", "m")} and s_[2][0] == "disc":
+                            roots |= _arg_roots(fn, ["c", s_[2][1]], u)
+                    hit = {x for x, opq in roots if x in data or (x in shared and opq)}
+                    if hit:
+                        bad.append((t[5] if len(t) > 5 else rec["line"], sorted(fn.local_name(x) for x in hit)))
+            r.call_sites += 1
+            r.inst({"fn": fn.id, "counter": fld, "line": d.line, "paths_leaving_without_arrival": nskip, "decided_by_shared_state": bool(bad)}, not bad)
+            for ln, who in bad:
+                r.violate(fn.id, f"leaves-without-arrival:{fld}", f"a path decided at line {ln} by `{', '.join(who)}` (shared operator state / data, not the partition's own phase "
+                          f"or the operator's configuration) returns successfully without `{fld}.dec_by_one()`: that partition is never counted, the countdown "
+                          "never reaches zero and the partitions parked on the barrier are never woken", rec["file"], ln)
+    return r
+
+
+
 def run(ctx):
     facts = ctx["facts"]
     mons, model = collect_monitor_model(facts)
     park, P = rule_park(facts, mons, model)
     PARK_SITES = [(i["fn"], i["ty"], i["slot"].split(".", 1)[1]) for i in park.instances]
     return [rule_pend(facts), park, rule_notify(facts, mons, model, P), rule_extcond(facts, mons, model), rule_addblocks(facts),
-            rule_stack(facts), rule_sched(facts), rule_err(facts, mons), rule_lock(facts, PARK_SITES)]
+            rule_stack(facts), rule_sched(facts), rule_err(facts, mons), rule_lock(facts, PARK_SITES), rule_barrier(facts)]
 
 
 CLAIM = {
